@@ -51,6 +51,59 @@ pub enum Mini {
     Obj(&'static Vec<(String, Mini)>),
 }
 
+/// Typed backing store for harness-built containers. CBMC models malloc-ed
+/// blocks as untyped byte arrays, and enum discriminants read back from them
+/// are no longer constant-folded during symbolic execution (every variant's
+/// code is then explored). Containers whose elements are *inspected* are
+/// therefore built over these typed stack buffers (never freed: dealloc is a
+/// no-op stub and harness values are forgotten).
+pub struct Scratch {
+    pub elems: [Mini; 4],
+    pub members: [(String, Mini); 3],
+    pub vec_e: core::mem::MaybeUninit<Vec<Mini>>,
+    pub vec_m: core::mem::MaybeUninit<Vec<(String, Mini)>>,
+}
+
+impl Scratch {
+    pub fn new() -> Scratch {
+        Scratch {
+            elems: [Mini::Null; 4],
+            members: [(String::new(), Mini::Null), (String::new(), Mini::Null), (String::new(), Mini::Null)],
+            vec_e: core::mem::MaybeUninit::uninit(),
+            vec_m: core::mem::MaybeUninit::uninit(),
+        }
+    }
+    /// array over the first `len` slots of `elems`
+    pub fn arr(&mut self, len: usize) -> Mini {
+        let len = opaque(len);
+        unsafe {
+            let v = Vec::from_raw_parts(self.elems.as_mut_ptr(), len, 4);
+            self.vec_e.write(v);
+            Mini::Arr(&*(self.vec_e.as_ptr()))
+        }
+    }
+    /// object over the first `len` slots of `members`
+    pub fn obj(&mut self, len: usize) -> Mini {
+        let len = opaque(len);
+        unsafe {
+            let v = Vec::from_raw_parts(self.members.as_mut_ptr(), len, 3);
+            self.vec_m.write(v);
+            Mini::Obj(&*(self.vec_m.as_ptr()))
+        }
+    }
+}
+
+/// The same value, but not a compile-time constant for CBMC's symbolic
+/// execution (measured: a slice with a *constant* length over a typed buffer
+/// makes element discriminants non-constant during symex and every enum arm is
+/// explored - 227 s instead of 0.6 s for a one-element array comparison; with an
+/// opaque length the discriminants fold). Semantically the identity.
+pub fn opaque(n: usize) -> usize {
+    let m: usize = kani::any();
+    kani::assume(m == n);
+    m
+}
+
 pub fn leak<T>(v: T) -> &'static T {
     Box::leak(Box::new(v))
 }
@@ -84,51 +137,78 @@ fn str_eq(a: &str, b: &str) -> bool {
     true
 }
 
+// Structural equality without recursion (CBMC unwinds recursion through every
+// call site, which explodes when call sites sit inside loops): three nesting
+// levels are spelled out; deeper values are a reported harness limit.
+macro_rules! mini_eq_level {
+    ($name:ident, $inner:ident) => {
+        fn $name(x: &Mini, y: &Mini) -> bool {
+            match (x, y) {
+                (Mini::Null, Mini::Null) => true,
+                (Mini::Bool(a), Mini::Bool(b)) => a == b,
+                (Mini::Int(a), Mini::Int(b)) => a == b,
+                (Mini::Float(a), Mini::Float(b)) => a == b,
+                (Mini::Str(a), Mini::Str(b)) => str_eq(a, b),
+                (Mini::Arr(a), Mini::Arr(b)) => {
+                    if a.len() != b.len() {
+                        return false;
+                    }
+                    let mut i = 0;
+                    while i < a.len() {
+                        if !$inner(&a[i], &b[i]) {
+                            return false;
+                        }
+                        i += 1;
+                    }
+                    true
+                }
+                (Mini::Obj(a), Mini::Obj(b)) => {
+                    // JSON objects are unordered for equality (as serde_json's Map).
+                    if a.len() != b.len() {
+                        return false;
+                    }
+                    let mut i = 0;
+                    while i < a.len() {
+                        let mut found = false;
+                        let mut j = 0;
+                        while j < b.len() {
+                            if str_eq(&a[i].0, &b[j].0) && $inner(&a[i].1, &b[j].1) {
+                                found = true;
+                            }
+                            j += 1;
+                        }
+                        if !found {
+                            return false;
+                        }
+                        i += 1;
+                    }
+                    true
+                }
+                _ => false,
+            }
+        }
+    };
+}
+fn mini_eq_0(x: &Mini, y: &Mini) -> bool {
+    match (x, y) {
+        (Mini::Null, Mini::Null) => true,
+        (Mini::Bool(a), Mini::Bool(b)) => a == b,
+        (Mini::Int(a), Mini::Int(b)) => a == b,
+        (Mini::Float(a), Mini::Float(b)) => a == b,
+        (Mini::Str(a), Mini::Str(b)) => str_eq(a, b),
+        (Mini::Arr(_), Mini::Arr(_)) | (Mini::Obj(_), Mini::Obj(_)) => {
+            kani::assert(false, "VERIF-LIMIT document nested deeper than Mini::eq supports");
+            false
+        }
+        _ => false,
+    }
+}
+mini_eq_level!(mini_eq_1, mini_eq_0);
+mini_eq_level!(mini_eq_2, mini_eq_1);
+
 impl PartialEq for Mini {
     fn eq(&self, other: &Self) -> bool {
-        match (self, other) {
-            (Mini::Null, Mini::Null) => true,
-            (Mini::Bool(a), Mini::Bool(b)) => a == b,
-            (Mini::Int(a), Mini::Int(b)) => a == b,
-            (Mini::Float(a), Mini::Float(b)) => a == b,
-            (Mini::Str(a), Mini::Str(b)) => str_eq(a, b),
-            (Mini::Arr(a), Mini::Arr(b)) => {
-                if a.len() != b.len() {
-                    return false;
-                }
-                let mut i = 0;
-                while i < a.len() {
-                    if a[i] != b[i] {
-                        return false;
-                    }
-                    i += 1;
-                }
-                true
-            }
-            (Mini::Obj(a), Mini::Obj(b)) => {
-                // JSON objects are unordered for equality (as serde_json's Map).
-                if a.len() != b.len() {
-                    return false;
-                }
-                let mut i = 0;
-                while i < a.len() {
-                    let mut found = false;
-                    let mut j = 0;
-                    while j < b.len() {
-                        if str_eq(&a[i].0, &b[j].0) && a[i].1 == b[j].1 {
-                            found = true;
-                        }
-                        j += 1;
-                    }
-                    if !found {
-                        return false;
-                    }
-                    i += 1;
-                }
-                true
-            }
-            _ => false,
-        }
+        mini_eq_2(self, other)
     }
 }
 
@@ -499,5 +579,229 @@ pub fn rfc_index(i: i64, len: i64) -> Option<usize> {
         Some(n as usize)
     } else {
         None
+    }
+}
+
+// ---------------------------------------------------------------------------
+// symbolic strings
+
+/// Symbolic string of 0..=max Unicode scalar values (each any valid char).
+pub fn any_string(max: usize) -> String {
+    let mut s = String::with_capacity(4 * max);
+    let n: usize = kani::any();
+    kani::assume(n <= max);
+    let mut i = 0;
+    while i < max {
+        let c: char = kani::any();
+        if i < n {
+            s.push(c);
+        }
+        i += 1;
+    }
+    s
+}
+
+/// Symbolic ASCII string of 0..=max bytes.
+pub fn any_ascii(max: usize) -> String {
+    let mut s = String::with_capacity(max);
+    let n: usize = kani::any();
+    kani::assume(n <= max);
+    let mut i = 0;
+    while i < max {
+        let b: u8 = kani::any();
+        kani::assume(b < 0x80);
+        if i < n {
+            s.push(b as char);
+        }
+        i += 1;
+    }
+    s
+}
+
+pub fn leak_str(s: String) -> &'static str {
+    Box::leak(s.into_boxed_str())
+}
+
+// ---------------------------------------------------------------------------
+// RFC 9535 section 2.3.5.2.2 comparison semantics (reference)
+
+use core::cmp::Ordering;
+
+/// exact comparison of an i64 with a finite f64 by mathematical value
+pub fn cmp_int_float(i: i64, f: f64) -> Ordering {
+    // 2^63 as f64 is exact
+    if f >= 9223372036854775808.0 {
+        return Ordering::Less;
+    }
+    if f < -9223372036854775808.0 {
+        return Ordering::Greater;
+    }
+    let t = f.trunc();
+    let ti = t as i64; // exact: |t| <= 2^63 and t integral, t < 2^63
+    if i < ti {
+        Ordering::Less
+    } else if i > ti {
+        Ordering::Greater
+    } else if f > t {
+        Ordering::Less
+    } else if f < t {
+        Ordering::Greater
+    } else {
+        Ordering::Equal
+    }
+}
+
+pub fn is_num(m: &Mini) -> bool {
+    matches!(m, Mini::Int(_) | Mini::Float(_))
+}
+
+pub fn spec_num_cmp(a: &Mini, b: &Mini) -> Ordering {
+    match (a, b) {
+        (Mini::Int(x), Mini::Int(y)) => x.cmp(y),
+        (Mini::Float(x), Mini::Float(y)) => {
+            if x < y {
+                Ordering::Less
+            } else if x > y {
+                Ordering::Greater
+            } else {
+                Ordering::Equal
+            }
+        }
+        (Mini::Int(x), Mini::Float(y)) => cmp_int_float(*x, *y),
+        (Mini::Float(x), Mini::Int(y)) => cmp_int_float(*y, *x).reverse(),
+        _ => Ordering::Equal,
+    }
+}
+
+/// strings ordered by Unicode scalar value (decoded), not by encoded bytes
+pub fn spec_str_cmp(a: &str, b: &str) -> Ordering {
+    let mut ia = a.chars();
+    let mut ib = b.chars();
+    loop {
+        match (ia.next(), ib.next()) {
+            (None, None) => return Ordering::Equal,
+            (None, Some(_)) => return Ordering::Less,
+            (Some(_), None) => return Ordering::Greater,
+            (Some(x), Some(y)) => {
+                let (x, y) = (x as u32, y as u32);
+                if x < y {
+                    return Ordering::Less;
+                }
+                if x > y {
+                    return Ordering::Greater;
+                }
+            }
+        }
+    }
+}
+
+fn spec_scalar_eq(a: &Mini, b: &Mini) -> Option<bool> {
+    if is_num(a) && is_num(b) {
+        return Some(spec_num_cmp(a, b) == Ordering::Equal);
+    }
+    match (a, b) {
+        (Mini::Null, Mini::Null) => Some(true),
+        (Mini::Bool(x), Mini::Bool(y)) => Some(x == y),
+        (Mini::Str(x), Mini::Str(y)) => Some(spec_str_cmp(x, y) == Ordering::Equal),
+        (Mini::Arr(_), Mini::Arr(_)) | (Mini::Obj(_), Mini::Obj(_)) => None,
+        _ => Some(false),
+    }
+}
+fn spec_json_eq_0(a: &Mini, b: &Mini) -> bool {
+    match spec_scalar_eq(a, b) {
+        Some(r) => r,
+        None => {
+            kani::assert(false, "VERIF-LIMIT document nested deeper than the reference equality supports");
+            false
+        }
+    }
+}
+macro_rules! spec_eq_level {
+    ($name:ident, $inner:ident) => {
+        fn $name(a: &Mini, b: &Mini) -> bool {
+            if let Some(r) = spec_scalar_eq(a, b) {
+                return r;
+            }
+            match (a, b) {
+                (Mini::Arr(x), Mini::Arr(y)) => {
+                    if x.len() != y.len() {
+                        return false;
+                    }
+                    let mut i = 0;
+                    while i < x.len() {
+                        if !$inner(&x[i], &y[i]) {
+                            return false;
+                        }
+                        i += 1;
+                    }
+                    true
+                }
+                (Mini::Obj(x), Mini::Obj(y)) => {
+                    if x.len() != y.len() {
+                        return false;
+                    }
+                    let mut i = 0;
+                    while i < x.len() {
+                        let mut found = false;
+                        let mut j = 0;
+                        while j < y.len() {
+                            if str_eq(&x[i].0, &y[j].0) && $inner(&x[i].1, &y[j].1) {
+                                found = true;
+                            }
+                            j += 1;
+                        }
+                        if !found {
+                            return false;
+                        }
+                        i += 1;
+                    }
+                    true
+                }
+                _ => false,
+            }
+        }
+    };
+}
+spec_eq_level!(spec_json_eq_1, spec_json_eq_0);
+spec_eq_level!(spec_json_eq_2, spec_json_eq_1);
+pub fn spec_json_eq(a: &Mini, b: &Mini) -> bool {
+    spec_json_eq_2(a, b)
+}
+
+/// None = the empty nodelist ("nothing")
+pub fn spec_eq(a: &Option<Mini>, b: &Option<Mini>) -> bool {
+    match (a, b) {
+        (None, None) => true,
+        (Some(x), Some(y)) => spec_json_eq(x, y),
+        _ => false,
+    }
+}
+
+pub fn spec_lt(a: &Option<Mini>, b: &Option<Mini>) -> bool {
+    match (a, b) {
+        (Some(x), Some(y)) => {
+            if is_num(x) && is_num(y) {
+                spec_num_cmp(x, y) == Ordering::Less
+            } else if let (Mini::Str(s), Mini::Str(t)) = (x, y) {
+                spec_str_cmp(s, t) == Ordering::Less
+            } else {
+                false
+            }
+        }
+        _ => false,
+    }
+}
+
+/// Operand in one of the evaluator's forms: owned value or node reference.
+pub fn operand<'a>(root: &'a Mini, v: &'a Option<Mini>, as_value: bool) -> State<'a, Mini> {
+    match v {
+        None => State::nothing(root),
+        Some(m) => {
+            if as_value {
+                State::data(root, Data::Value(*m))
+            } else {
+                State::data(root, Data::Ref(Pointer::new(m, String::from("p"))))
+            }
+        }
     }
 }
